@@ -63,6 +63,39 @@ def _work(arg):
             "loops": sc.I.loop_info, "stats": sc.I.stats}
 
 
+def dependency_frontier(facts, entry_fns):
+    impls = {}
+    for p, f in facts.fns.items():
+        if f.get("impl_trait"):
+            impls.setdefault(f["impl_trait"] + "::" + f["name"], []).append(p)
+    uniq = {k: v[0] for k, v in impls.items() if len(v) == 1}
+
+    def callees(p):
+        out = set()
+        for c in facts.fns[p].get("mir_calls", []):
+            d = c["def"]
+            if d in facts.fns:
+                out.add(d)
+            elif d in uniq:
+                out.add(uniq[d])
+        return out
+    res = {}
+    for p in entry_fns:
+        dep, seen, todo = set(), {p}, [p]
+        while todo:
+            q = todo.pop()
+            for r in callees(q):
+                if r in seen:
+                    continue
+                seen.add(r)
+                if r in entry_fns:
+                    dep.add(r)
+                else:
+                    todo.append(r)
+        res[p] = sorted(dep)
+    return res
+
+
 def run(facts_dir, tier="quick"):
     t0 = time.time()
     fpath = os.path.join(facts_dir, "open_hypergraphs.default.json")
@@ -88,6 +121,11 @@ def run(facts_dir, tier="quick"):
                 out[name][k] = out[name].get(k, 0) + v
         out["loops"].extend(p["loops"])
     out["entries"].sort(key=lambda e: e["entry"])
+    # premises: the public operations each entry point calls directly (through crate-private helpers, which are
+    # analysed inline); trait methods are resolved when the crate has exactly one implementation (the array traits)
+    deps = dependency_frontier(facts, {e["fn"] for e in out["entries"]})
+    for e in out["entries"]:
+        e["deps"] = deps.get(e["fn"], [])
     # inventory (floors, fail-closed)
     import inventory
     out["inventory"] = inventory.collect(facts)
